@@ -21,7 +21,7 @@ import (
 // C07 — flushed log data survives a process crash at any instant.
 
 type hop struct {
-	Kind  string `json:"kind"` // bulk | flush | rotate | query
+	Kind  string `json:"kind"` // bulk | flush | rotate | query | retention
 	Index int    `json:"index"`
 	From  int    `json:"from"`
 	To    int    `json:"to"`
@@ -77,6 +77,10 @@ func genC07(t *rapid.T) *c07Case {
 		case 4:
 			cs.Ops = append(cs.Ops, hop{Kind: "flush"}, hop{Kind: "query"})
 		}
+		// the periodic retention pass (nothing is old enough to expire) may run between any two steps
+		if rapid.IntRange(0, 5).Draw(t, "retentionPass") == 0 {
+			cs.Ops = append(cs.Ops, hop{Kind: "retention"})
+		}
 	}
 	last := cs.Ops[len(cs.Ops)-1].Kind
 	if last == "bulk" || rapid.Bool().Draw(t, "finalFlush") {
@@ -131,6 +135,8 @@ func execute(c *sut.Client, cs *c07Case, lo, hi uint64) (*runState, error) {
 			}
 		case "query":
 			_, err = c.Search(sut.Query{Index: indexNames[0], Text: "*", Start: lo - 1, End: hi + 10, Size: 1000})
+		case "retention":
+			err = c.Call(&sut.Req{Op: "c07.retention"}, nil)
 		}
 		if err != nil {
 			if errors.Is(err, sut.ErrWorkerDied) {
@@ -210,6 +216,12 @@ func checkC07(cs *c07Case, o *pt.Obs) error {
 			return err
 		}
 		o.Class("prior_life_killed_before_first_flush")
+	}
+	for _, op := range cs.Ops {
+		if op.Kind == "retention" {
+			o.Class("history_with_retention_pass")
+			break
+		}
 	}
 	err := pt.WithWorker(sut.Options{DataDir: dryDir}, func(c *sut.Client) error {
 		if err := prep(c, 0, "", 0, true); err != nil {
